@@ -474,7 +474,7 @@ theorem fs_txnPlace (w : World) (t : Txn) (oid : Nat) (v : Option Int) (ex force
     split
     · exact k0.trans k1
     · rename_i hnc
-      have hn1 : oid ∉ (w1.market! t.market).blotter := fun hin => hnc (List.contains_iff_mem.mpr hin)
+      have hn1 : oid ∉ (w1.market! t.market).blotter := fun hin => hnc (by rw [Bool.or_eq_true]; exact Or.inl (List.contains_iff_mem.mpr hin))
       have k2 := fs_modifyOrder t.market w1 oid (fun o => { o with publishTime := some (((w1.market! t.market).book).getD {}).pt, marketVersion := v }) (fun _ => rfl) ⟨rfl, rfl⟩
       have m2 : (w1.modifyOrder oid (fun o => { o with publishTime := some (((w1.market! t.market).book).getD {}).pt, marketVersion := v })).markets = w1.markets := rfl
       generalize w1.modifyOrder oid (fun o => { o with publishTime := some (((w1.market! t.market).book).getD {}).pt, marketVersion := v }) = w2 at k2 m2
@@ -755,9 +755,12 @@ theorem fs_executePackage (w : World) (p : Package) (hp : ∀ oid ∈ p.orders, 
   | replace =>
     simp only; unfold executeReplace
     simp only
-    have hz : ∀ a ∈ (w.packageOrders p).zip (((w.packageOrders p).filter fun oid => (w.order! oid).status ≠ some .executionComplete).map fun oid => (w.order! oid).ud.newPrice),
-        HasOrder w a.1 := fun a ha => hpo a.1 (List.of_mem_zip ha).1
-    generalize ((w.packageOrders p).zip _) = zs at hz
+    have hz : ∀ a ∈ (((w.packageOrders p).filter fun oid => (w.order! oid).status ≠ some .executionComplete).map fun oid => (oid, (w.order! oid).ud.newPrice)),
+        HasOrder w a.1 := by
+      intro a ha
+      obtain ⟨oid, ho, rfl⟩ := List.mem_map.mp ha
+      exact hpo oid (List.mem_filter.mp ho).1
+    generalize (((w.packageOrders p).filter fun oid => (w.order! oid).status ≠ some .executionComplete).map fun oid => (oid, (w.order! oid).ud.newPrice)) = zs at hz
     have := fs_foldl_pair_mem p.market (replaceStep p) (fun a => a.1) zs (w, 0) (fun acc pr h => fs_replaceStep p acc pr h) hz
     generalize zs.foldl (replaceStep p) (w, 0) = r at this
     obtain ⟨w1, failed⟩ := r
@@ -1236,6 +1239,15 @@ theorem bi_empty (M : Nat) (cfg : Config) (cl : List Client) (ss : List Strategy
   refine ⟨inv_empty cfg cl ss, ?_, ?_⟩
   · intro oid h; rw [hb] at h; cases h
   · intro oid h; rw [hb] at h; cases h
+
+
+/-- a run of one market is a run (`Inv.runUpdates`) all of whose updates carry that market id -/
+theorem runMarket_eq_runUpdates (M : Nat) (w : World) (us : List (Book × (Nat → List Action))) :
+    runMarket M w us = runUpdates w (us.map fun u => (M, u.1, u.2)) := by
+  unfold runMarket runUpdates
+  induction us generalizing w with
+  | nil => rfl
+  | cons u rest ih => rw [List.map_cons, List.foldl_cons, List.foldl_cons]; exact ih _
 
 
 end Flumine.Fin
